@@ -1673,6 +1673,11 @@ async fn judge_run(sc: &Scenario, out: &RunOut) -> Judged {
     if out.a_tip.0 < out.a_start_tip.0 && out.panics.is_empty() {
         raw.push((Kind::TipDown, format!("A's tip height went down during the exchange: from id {} to id {}", out.a_start_tip.0, out.a_tip.0)));
     }
+    // a run broken off after repeated handler panics (the node is dead by then): what was not
+    // requested / did not settle afterwards says nothing; the panics themselves are judged
+    if out.panics.len() > 3 {
+        raw.retain(|(k, _)| !matches!(k, Kind::NeverRequested | Kind::NoQuiescence));
+    }
     let mut j = Judged { failures: vec![], known: vec![], adoptable: adopt, converged };
     let reordered: Vec<u64> = out.child_before_parent.iter().filter(|e| e.reordered).map(|e| e.id).collect();
     let reordered_orphan: Vec<u64> = out.child_before_parent.iter().filter(|e| e.reordered && e.orphan_path).map(|e| e.id).collect();
